@@ -1965,7 +1965,7 @@ def run_elements(ctx, n) -> None:
 
     def one_forced(tree):
         check_element(ctx, {'tree': tree})
-        ctx.case(('de', de_encode(tree)), True, {'sdp_elem', 'sdp_nonminimal_size'}, sample={'element': describe_tree(tree), 'wire': de_encode(tree).hex()})
+        ctx.case(('de', de_encode(tree)), True, {'sdp_elem', 'sdp_nonminimal_size', f'sdp_idx:{de_encode(tree)[0] & 7}'}, sample={'element': describe_tree(tree), 'wire': de_encode(tree).hex()})
 
     ctx.hyp('sdp_elem/forced', one_forced, forced, max_examples=max(8, n // 5))
 
